@@ -153,6 +153,11 @@ def tsv_parser(repo, chk):
             # any character other than a line terminator also alters edge fields
             if hit or (eaten - set('\r\n')):
                 bad.append((text, hit))
+        eaten_all = set()
+        for text, chars in stripped:
+            eaten_all |= (WHITESPACE if chars is None else set(chars))
+        chk.expect('\n' in eaten_all, 'C16.2d', 'R12', fn.site(c), ast.unparse(c.func.value) + f'  (removed: {sorted(eaten_all)!r})', 'the line terminator is removed before the split',
+                   'the line terminator is not removed before the split: the last field of every row keeps its trailing newline (fields are not returned unmodified)')
         if bad:
             text, hit = bad[0]
             chk.bad('C16.2b', 'R12', fn.site(c), text, f'the line is stripped of characters that can be the field delimiter ({hit!r}) or belong to an edge field before it is split: empty/blank first or last fields are lost and the row is mis-counted')
@@ -416,6 +421,15 @@ def namespace_reader(repo, chk):
     ok_arg = len(a.args) == 1 and isinstance(a.args[0], ast.Name) and isinstance(val, ast.Name) and a.args[0].id == val.id
     chk.expect(ok_guard and ok_arg and len(g) == 1, 'C16.6c', 'R14', fn.site(a), ast.unparse(stmt_of(a, par)), "float set gets the feature iff its declared type is 'f32'",
                "float_set.add(feature) must be guarded by exactly `type_name == 'f32'`")
+    # which lines are two-field lines
+    tests = [n for n in own_nodes(fn.node) if isinstance(n, ast.If) and any(u in n.body or u in n.orelse for u in unpacks)]
+    if tests:
+        tt = term_of(fn, tests[0].test, {}, inline=False)
+        pn = ast.unparse(two[0].value) if two else 'namespace_parts'
+        want2 = [expected_term(m, f"len({pn}) == 2 and '_' not in {pn}[0]"), expected_term(m, f"len({pn}) == 2")]
+        in_body = bool(two) and two[0] in tests[0].body
+        chk.expect(tt in want2 and in_body, 'C16.6f', 'R14', fn.site(tests[0]), ast.unparse(tests[0].test), 'two-field lines (id,feature) are read as such, three-field lines carry their type',
+                   'the test that separates two-field from three-field namespace lines changed: lines are unpacked with the wrong arity, raise inside the try and are silently dropped from the id->feature map')
     # two-field lines are 'generic'
     gen_ok = False
     for u in two:
